@@ -217,6 +217,9 @@ def check(ctx):
             ctx.stat("model_out_of_fuel")
         elif cd == 0:
             ctx.broken("correspondence:adaptive_rk", {"case": nmeta[i], "coq": ncases[i][:1500]})
+            import os
+            os.makedirs("/verif/replay", exist_ok=True)
+            open("/verif/replay/C07-adaptive-case-%d.txt" % i, "w").write(ncases[i])
     if any(c == 0 for c in codes) or failed:
         pass
     oracle(ctx)
